@@ -1,7 +1,1211 @@
-//! C20 — not built yet
-use crate::vcore::Tier;
+//! C20 — VTX playback is frame-accurate and independent of play() chunking.
+//!
+//! Three exhaustive product enumerations on the real `vtx::player::Player` / `vtx::Vtx::load`:
+//!  (1) scheduling: a recording `AymBackend` logs (sample index, register, value); every
+//!      composition of the requested output into play() buffer lengths is executed and compared
+//!      with a 20-line reference model of the statement (frame k applied at sample k*spf, R13=FF
+//!      skipped, F*spf samples per channel, identical stream for every partition);
+//!  (2) the real `AymPrecise`: bit-exact f64 equality of the Player output, for every subset of a
+//!      cut-point set around the frame boundaries, against a direct rendering (write the frame,
+//!      pull spf samples) that does not go through Player at all;
+//!  (3) decode: `Vtx::load` on files produced by the harness VTX writer (literal-only LH5 encoder,
+//!      validated by exhaustive round trip through delharc first) and on the four shipped files.
 
-pub fn run(_tier: Tier, _seed: u64, _replay: Option<String>) -> i32 {
-    eprintln!("MACHINERY: check C20 is not built yet");
-    2
+#[path = "../ay_common.rs"]
+mod ay_common;
+#[path = "../vtx_writer.rs"]
+mod vtx_writer;
+
+use crate::rig;
+use crate::vcore::{fnv, fnv_mix, par_for, Ctx, Tier};
+use aym::{AyMode, AymBackend, AymPrecise, StereoSample};
+use ay_common::{panic_shape, Collector};
+use serde_json::{json, Value};
+use std::cell::RefCell;
+use std::collections::HashSet;
+use std::panic::{catch_unwind, AssertUnwindSafe};
+use vtx::player::Player;
+use vtx::Vtx;
+use vtx_writer::{lh5_decode, lh5_literals, register_major, write_vtx, Lh5Style, VtxSpec};
+
+type Frame = [u8; 14];
+type Fail = (String, String);
+
+// ------------------------------------------------------------------ recording backend
+
+#[derive(Default)]
+struct Rec {
+    news: Vec<(bool, u8, usize, usize)>,
+    writes: Vec<(u64, u8, u8)>,
+}
+
+thread_local! {
+    static REC: RefCell<Rec> = RefCell::new(Rec::default());
+}
+
+fn mode_code(m: &AyMode) -> u8 {
+    match m {
+        AyMode::Mono => 0,
+        AyMode::ABC => 1,
+        AyMode::ACB => 2,
+        AyMode::BAC => 3,
+        AyMode::BCA => 4,
+        AyMode::CAB => 5,
+        AyMode::CBA => 6,
+    }
+}
+
+fn mode_from(code: u8) -> AyMode {
+    match code {
+        0 => AyMode::Mono,
+        1 => AyMode::ABC,
+        2 => AyMode::ACB,
+        3 => AyMode::BAC,
+        4 => AyMode::BCA,
+        5 => AyMode::CAB,
+        _ => AyMode::CBA,
+    }
+}
+
+fn stereo_from(code: u8) -> vtx::Stereo {
+    match code {
+        0 => vtx::Stereo::Mono,
+        1 => vtx::Stereo::ABC,
+        2 => vtx::Stereo::ACB,
+        3 => vtx::Stereo::BAC,
+        4 => vtx::Stereo::BCA,
+        5 => vtx::Stereo::CAB,
+        _ => vtx::Stereo::CBA,
+    }
+}
+
+fn stereo_code(s: &vtx::Stereo) -> u8 {
+    match s {
+        vtx::Stereo::Mono => 0,
+        vtx::Stereo::ABC => 1,
+        vtx::Stereo::ACB => 2,
+        vtx::Stereo::BAC => 3,
+        vtx::Stereo::BCA => 4,
+        vtx::Stereo::CAB => 5,
+        vtx::Stereo::CBA => 6,
+    }
+}
+
+/// The value the recording chip emits as sample `n` while its register file is `regs`:
+/// exact in f64, distinct per (n, register-file digest), left/right distinguishable.
+fn rec_sample(n: u64, regs: &[u8; 14]) -> (f64, f64) {
+    let h = (fnv(regs) & 0xFFFF) as f64 / 65536.0;
+    let l = n as f64 + h;
+    (l, -l - 0.5)
+}
+
+struct RecAy {
+    regs: [u8; 14],
+    n: u64,
+}
+
+impl AymBackend for RecAy {
+    type SoundSample = f64;
+    fn new(chip: aym::SoundChip, mode: AyMode, frequency: usize, sample_rate: usize) -> Self {
+        REC.with(|r| {
+            r.borrow_mut()
+                .news
+                .push((matches!(chip, aym::SoundChip::YM), mode_code(&mode), frequency, sample_rate))
+        });
+        RecAy { regs: [0; 14], n: 0 }
+    }
+    fn write_register(&mut self, address: u8, value: u8) {
+        REC.with(|r| r.borrow_mut().writes.push((self.n, address, value)));
+        if (address as usize) < 14 {
+            self.regs[address as usize] = value;
+        }
+    }
+    fn next_sample(&mut self) -> StereoSample<f64> {
+        let (left, right) = rec_sample(self.n, &self.regs);
+        self.n += 1;
+        StereoSample { left, right }
+    }
+}
+
+fn mk_vtx(frames: &[Frame], ym: bool, stereo: u8, frequency: u32, pf: u8) -> Vtx {
+    let mut frame_data = Vec::with_capacity(frames.len() * 14);
+    for f in frames {
+        frame_data.extend_from_slice(f);
+    }
+    Vtx {
+        chip: if ym { vtx::SoundChip::YM } else { vtx::SoundChip::AY },
+        stereo: stereo_from(stereo),
+        frequency,
+        player_frequency: pf,
+        loop_start_frame: 0,
+        year: 0,
+        title: String::new(),
+        author: String::new(),
+        from: String::new(),
+        tracker: String::new(),
+        comment: String::new(),
+        frame_data,
+    }
+}
+
+// ------------------------------------------------------------------ reference model (scheduling)
+
+/// What the statement says, for a register log and a samples-per-frame value.
+struct Model {
+    spf: usize,
+    total: usize,
+    left: Vec<f64>,
+    right: Vec<f64>,
+    /// expected register writes in frame order; `log_upto[k]` = entries belonging to frames < k
+    log: Vec<(u64, u8, u8)>,
+    log_upto: Vec<usize>,
+}
+
+fn model(frames: &[Frame], spf: usize) -> Model {
+    let total = frames.len() * spf;
+    let mut regs = [0u8; 14];
+    let mut left = Vec::with_capacity(total);
+    let mut right = Vec::with_capacity(total);
+    let mut log = Vec::new();
+    let mut log_upto = vec![0usize];
+    for (k, f) in frames.iter().enumerate() {
+        for r in 0..14 {
+            if r == 13 && f[r] == 0xFF {
+                continue;
+            }
+            regs[r] = f[r];
+            log.push(((k * spf) as u64, r as u8, f[r]));
+        }
+        log_upto.push(log.len());
+        for s in 0..spf {
+            let (l, r) = rec_sample((k * spf + s) as u64, &regs);
+            left.push(l);
+            right.push(r);
+        }
+    }
+    Model { spf, total, left, right, log, log_upto }
+}
+
+const SENTINEL: f64 = -12345.0;
+
+struct RunInfo {
+    produced: usize,
+    short_calls: usize,
+    zero_calls: usize,
+    writes: usize,
+}
+
+/// Execute one partition on the real Player with the recording backend and judge it.
+fn sched_case(
+    frames: &[Frame],
+    rate: usize,
+    pf: u8,
+    stereo: bool,
+    lens: &[usize],
+    m: &Model,
+    scratch: &mut Vec<f64>,
+    verbose: bool,
+) -> Result<RunInfo, Fail> {
+    let tag = if stereo { "stereo" } else { "mono" };
+    let ch = if stereo { 2 } else { 1 };
+    REC.with(|r| {
+        let mut r = r.borrow_mut();
+        r.news.clear();
+        r.writes.clear();
+    });
+    let maxlen = lens.iter().copied().max().unwrap_or(0);
+    if scratch.len() < maxlen {
+        scratch.resize(maxlen, 0.0);
+    }
+    let res = catch_unwind(AssertUnwindSafe(|| -> Result<RunInfo, Fail> {
+        let vtx = mk_vtx(frames, false, 1, 1773400, pf);
+        let mut player = Player::<RecAy>::new(vtx, rate, stereo);
+        let mut pos = 0usize;
+        let mut short_calls = 0;
+        let mut zero_calls = 0;
+        for (ci, &l) in lens.iter().enumerate() {
+            let buf = &mut scratch[..l];
+            for x in buf.iter_mut() {
+                *x = SENTINEL;
+            }
+            let ret = player.play(buf);
+            let cap = l / ch;
+            let n = cap.min(m.total - pos);
+            if verbose {
+                println!("  call {:2}: len {:3} -> returned {:3} (expected {:3})  samples {:?}", ci, l, ret, n * ch, &buf[..ret.min(l)]);
+            }
+            if ret != n * ch {
+                let cls = if ret > n * ch { "too-many" } else { "too-few" };
+                return Err((
+                    format!("C20:sched:return-count:{}:{}", tag, cls),
+                    format!(
+                        "play() call {} with a buffer of {} returned {}, expected {} ({} of {} samples per channel already delivered)",
+                        ci, l, ret, n * ch, pos, m.total
+                    ),
+                ));
+            }
+            for i in 0..n {
+                let (el, er) = (m.left[pos + i], m.right[pos + i]);
+                let ok = if stereo { buf[2 * i] == el && buf[2 * i + 1] == er } else { buf[i] == el };
+                if !ok {
+                    return Err((
+                        format!("C20:sched:stream:{}", tag),
+                        format!(
+                            "sample {} (call {}, offset {}): got {:?}, expected {:?} (integer part = chip sample index, fraction = register-file digest)",
+                            pos + i,
+                            ci,
+                            i,
+                            if stereo { vec![buf[2 * i], buf[2 * i + 1]] } else { vec![buf[i]] },
+                            if stereo { vec![el, er] } else { vec![el] }
+                        ),
+                    ));
+                }
+            }
+            if n < cap {
+                short_calls += 1;
+            }
+            if ret == 0 {
+                zero_calls += 1;
+            }
+            pos += n;
+        }
+        Ok(RunInfo { produced: pos, short_calls, zero_calls, writes: 0 })
+    }));
+    let mut info = match res {
+        Ok(r) => r?,
+        Err(p) => {
+            return Err((
+                format!("C20:sched:panic:Player::play:{}:{}", tag, panic_shape(&p)),
+                format!("Player::new/play panicked: {}", panic_shape(&p)),
+            ))
+        }
+    };
+    // register-write schedule
+    let started = if m.spf == 0 { 0 } else { ((info.produced + m.spf - 1) / m.spf).min(frames.len()) };
+    let expect = &m.log[..m.log_upto[started]];
+    let fail = REC.with(|r| -> Option<Fail> {
+        let r = r.borrow();
+        info.writes = r.writes.len();
+        if verbose {
+            println!("  register writes seen  (sample, reg, value): {:?}", r.writes);
+            println!("  register writes wanted (sample, reg, value): {:?}", expect);
+        }
+        if r.writes.as_slice() == expect {
+            return None;
+        }
+        // order inside one sample index is not judged
+        let mut got = r.writes.clone();
+        got.sort();
+        let mut want = expect.to_vec();
+        want.sort();
+        if got == want {
+            return None;
+        }
+        let extra: Vec<_> = got.iter().filter(|x| !want.contains(x)).take(3).collect();
+        let missing: Vec<_> = want.iter().filter(|x| !got.contains(x)).take(3).collect();
+        let cls = if extra.iter().any(|x| x.1 == 13 && x.2 == 0xFF) {
+            "r13-ff-written"
+        } else if missing.iter().any(|x| x.1 == 13) {
+            "r13-value-skipped"
+        } else if !extra.is_empty() && !missing.is_empty() && extra[0].1 == missing[0].1 && extra[0].2 == missing[0].2 {
+            "wrong-sample-index"
+        } else if missing.is_empty() {
+            "extra-writes"
+        } else {
+            "missing-writes"
+        };
+        Some((
+            format!("C20:sched:write-log:{}:{}", tag, cls),
+            format!(
+                "register writes differ from the schedule: unexpected (sample,reg,val) {:?}, missing {:?}; {} samples per channel produced, spf {}",
+                extra, missing, info.produced, m.spf
+            ),
+        ))
+    });
+    match fail {
+        Some(f) => Err(f),
+        None => Ok(info),
+    }
+}
+
+fn sched_json(frames: &[Frame], rate: usize, pf: u8, stereo: bool, lens: &[usize]) -> Value {
+    json!({"kind":"sched","frames":frames.iter().map(|f| f.to_vec()).collect::<Vec<_>>(),"rate":rate,"pf":pf,"stereo":stereo,"lens":lens})
+}
+
+// ------------------------------------------------------------------ scheduling enumeration
+
+#[derive(Clone, Debug)]
+enum Family {
+    /// all compositions of `n` buffer elements (positive lengths)
+    Elements(usize),
+    /// stereo only: all compositions of `n` sample frames into capacities x 4 parity patterns
+    FramesParity(usize),
+}
+
+#[derive(Clone, Debug)]
+struct Cfg {
+    f: usize,
+    spf: usize,
+    rate: usize,
+    pf: u8,
+    stereo: bool,
+    family: Family,
+}
+
+impl Family {
+    fn count(&self) -> u64 {
+        match self {
+            Family::Elements(n) => 1u64 << (n - 1),
+            Family::FramesParity(n) => 4u64 << (n - 1),
+        }
+    }
+    fn lens(&self, idx: u64, out: &mut Vec<usize>) {
+        out.clear();
+        match self {
+            Family::Elements(n) => {
+                let mut len = 0;
+                for i in 0..*n {
+                    len += 1;
+                    if i == n - 1 || (idx >> i) & 1 == 1 {
+                        out.push(len);
+                        len = 0;
+                    }
+                }
+            }
+            Family::FramesParity(n) => {
+                let pat = idx & 3;
+                let mask = idx >> 2;
+                let mut len = 0;
+                for i in 0..*n {
+                    len += 1;
+                    if i == n - 1 || (mask >> i) & 1 == 1 {
+                        let k = out.len() as u64;
+                        let odd = match pat {
+                            0 => 0,
+                            1 => 1,
+                            2 => k & 1,
+                            _ => (k + 1) & 1,
+                        };
+                        out.push(2 * len + odd as usize);
+                        len = 0;
+                    }
+                }
+            }
+        }
+    }
+}
+
+const R13_ALPHA: [u8; 4] = [0x00, 0x01, 0x0F, 0xFF];
+
+/// Register logs of F frames: R13 over {00 01 0F FF}^F x two patterns elsewhere
+/// (pattern 0: position-coded distinct bytes; pattern 1: FF everywhere, colliding with the
+/// R13 "no change" marker in registers where FF is an ordinary value).
+fn logs_for(f: usize) -> Vec<Vec<Frame>> {
+    let mut out = Vec::new();
+    for pat in 0..2 {
+        for combo in 0..(4usize.pow(f as u32)) {
+            let mut frames = Vec::new();
+            for k in 0..f {
+                let mut fr = [0u8; 14];
+                for r in 0..13 {
+                    fr[r] = if pat == 0 { (k * 14 + r + 1) as u8 } else { 0xFF };
+                }
+                fr[13] = R13_ALPHA[(combo >> (2 * k)) & 3];
+                frames.push(fr);
+            }
+            out.push(frames);
+        }
+        if f == 0 {
+            break;
+        }
+    }
+    out
+}
+
+/// Reduced log set for the configurations whose partition count is too large for all logs.
+fn reduced_logs(f: usize) -> Vec<Vec<Frame>> {
+    let a = [0x0F, 0xFF, 0x00];
+    let b = [0xFF, 0xFF, 0x01];
+    let mut out = Vec::new();
+    for (pat, r13) in [(0usize, a), (1usize, b)] {
+        let mut frames = Vec::new();
+        for k in 0..f {
+            let mut fr = [0u8; 14];
+            for r in 0..13 {
+                fr[r] = if pat == 0 { (k * 14 + r + 1) as u8 } else { 0xFF };
+            }
+            fr[13] = r13[k % 3];
+            frames.push(fr);
+        }
+        out.push(frames);
+    }
+    out
+}
+
+
+fn sched_enumeration(ctx: &Ctx, col: &Collector) {
+    let budget: u64 = if ctx.thorough() { 1 << 27 } else { 1 << 23 };
+    let extra = 3usize;
+    let mut cfgs: Vec<Cfg> = Vec::new();
+    for f in 0..=3usize {
+        for spf in [1usize, 2, 3, 5] {
+            // two (sample rate, player frequency) pairs per spf: exact division and a floor case
+            for (rate, pf) in [(spf * 50, 50u8), ((spf + 1) * 7 - 1, 7u8)] {
+                let t = f * spf;
+                cfgs.push(Cfg { f, spf, rate, pf, stereo: false, family: Family::Elements(t + extra) });
+                let e = 2 * t + 3;
+                if e <= 23 {
+                    cfgs.push(Cfg { f, spf, rate, pf, stereo: true, family: Family::Elements(e) });
+                } else {
+                    cfgs.push(Cfg { f, spf, rate, pf, stereo: true, family: Family::FramesParity(t + 2) });
+                }
+            }
+        }
+    }
+    struct Job {
+        cfg: usize,
+        log: usize,
+        frames: Vec<Frame>,
+        start: u64,
+        end: u64,
+    }
+    let mut jobs: Vec<Job> = Vec::new();
+    let mut reduced_cfgs = 0;
+    let mut parity_cfgs = 0;
+    for (ci, c) in cfgs.iter().enumerate() {
+        let n = c.family.count();
+        if matches!(c.family, Family::FramesParity(_)) {
+            parity_cfgs += 1;
+        }
+        let mut logs = logs_for(c.f);
+        if n * logs.len() as u64 > budget {
+            logs = reduced_logs(c.f);
+            reduced_cfgs += 1;
+        }
+        for (li, frames) in logs.into_iter().enumerate() {
+            let mut s = 0u64;
+            while s < n {
+                let e = (s + 4096).min(n);
+                jobs.push(Job { cfg: ci, log: li, frames: frames.clone(), start: s, end: e });
+                s = e;
+            }
+        }
+    }
+    ctx.note("sched_configurations", json!(cfgs.len()));
+    ctx.note("sched_configurations_with_reduced_log_set", json!(reduced_cfgs));
+    ctx.note("sched_stereo_configurations_on_capacity_x_parity_family", json!(parity_cfgs));
+    let calls_total = std::sync::atomic::AtomicU64::new(0);
+    par_for(jobs.len(), 1, |ji| {
+        let job = &jobs[ji];
+        let c = &cfgs[job.cfg];
+        let m = model(&job.frames, c.spf);
+        let mut lens = Vec::new();
+        let mut scratch = Vec::new();
+        let mut outs: HashSet<u64> = HashSet::new();
+        let mut calls = 0u64;
+        for idx in job.start..job.end {
+            c.family.lens(idx, &mut lens);
+            // past-the-end behaviour: an empty buffer, a larger one, a single element
+            lens.push(0);
+            lens.push(if c.stereo { 5 } else { 4 });
+            lens.push(1);
+            calls += lens.len() as u64;
+            match sched_case(&job.frames, c.rate, c.pf, c.stereo, &lens, &m, &mut scratch, false) {
+                Ok(info) => {
+                    let mut h = fnv(&[c.f as u8, c.spf as u8, c.stereo as u8]);
+                    h = fnv_mix(h, info.produced as u64);
+                    h = fnv_mix(h, info.writes as u64);
+                    h = fnv_mix(h, info.short_calls as u64);
+                    h = fnv_mix(h, info.zero_calls as u64);
+                    outs.insert(h);
+                }
+                Err(fail) => {
+                    col.fail((job.cfg as u64, job.log as u64, idx), &fail.0, &fail.1, || {
+                        sched_json(&job.frames, c.rate, c.pf, c.stereo, &lens)
+                    });
+                }
+            }
+        }
+        ctx.add_eval(job.end - job.start);
+        calls_total.fetch_add(calls, std::sync::atomic::Ordering::Relaxed);
+        ctx.outcomes_bulk(&outs);
+    });
+    ctx.note("sched_play_calls", json!(calls_total.into_inner()));
+    // a few real cases for the evidence file
+    for (ci, li, idx) in [(40usize, 5usize, 77u64), (41, 9, 1234), (90, 1, 4242)] {
+        if ci < cfgs.len() {
+            let c = &cfgs[ci];
+            let logs = logs_for(c.f);
+            let frames = &logs[li % logs.len()];
+            let mut lens = Vec::new();
+            c.family.lens(idx % c.family.count(), &mut lens);
+            ctx.sample(json!({"part":"sched","frames":frames.len(),"spf":c.spf,"rate":c.rate,"pf":c.pf,"stereo":c.stereo,
+                "buffer_lens":lens,"r13_per_frame":frames.iter().map(|f| f[13]).collect::<Vec<_>>()}));
+        }
+    }
+}
+
+// ------------------------------------------------------------------ real AymPrecise stream equality
+
+#[derive(Clone, Debug)]
+struct RealCfg {
+    ym: bool,
+    /// vtx stereo code 0..=6
+    stereo_code: u8,
+    freq: u32,
+    rate: usize,
+    pf: u8,
+    stereo: bool,
+}
+
+fn chip_of(ym: bool) -> aym::SoundChip {
+    if ym {
+        aym::SoundChip::YM
+    } else {
+        aym::SoundChip::AY
+    }
+}
+
+/// Direct rendering of the statement, not going through Player: write frame k (R13=FF skipped),
+/// pull floor(rate/pf) samples, next frame.
+fn render_direct(frames: &[Frame], c: &RealCfg) -> Vec<f64> {
+    let spf = c.rate / c.pf as usize;
+    let mode = if c.stereo { mode_from(c.stereo_code) } else { AyMode::Mono };
+    let mut ay = <AymPrecise as AymBackend>::new(chip_of(c.ym), mode, c.freq as usize, c.rate);
+    let mut out = Vec::with_capacity(frames.len() * spf * 2);
+    for f in frames {
+        for r in 0..14 {
+            if r == 13 && f[r] == 0xFF {
+                continue;
+            }
+            ay.write_register(r as u8, f[r]);
+        }
+        for _ in 0..spf {
+            let s = ay.next_sample();
+            out.push(s.left);
+            if c.stereo {
+                out.push(s.right);
+            }
+        }
+    }
+    out
+}
+
+fn real_case(frames: &[Frame], c: &RealCfg, lens: &[usize], reference: &[f64], verbose: bool) -> Result<u64, Fail> {
+    let tag = if c.stereo { "stereo" } else { "mono" };
+    let ch = if c.stereo { 2 } else { 1 };
+    let total = reference.len() / ch;
+    let res = catch_unwind(AssertUnwindSafe(|| -> Result<u64, Fail> {
+        let vtx = mk_vtx(frames, c.ym, c.stereo_code, c.freq, c.pf);
+        let mut player = Player::<AymPrecise>::new(vtx, c.rate, c.stereo);
+        let mut pos = 0usize;
+        let mut buf: Vec<f64> = Vec::new();
+        let mut digest = 0xcbf29ce484222325u64;
+        for (ci, &l) in lens.iter().enumerate() {
+            buf.clear();
+            buf.resize(l, SENTINEL);
+            let ret = player.play(&mut buf[..]);
+            let cap = l / ch;
+            let n = cap.min(total - pos);
+            if verbose {
+                println!("  call {:3}: len {:5} -> returned {:5} (expected {:5})", ci, l, ret, n * ch);
+            }
+            if ret != n * ch {
+                return Err((
+                    format!("C20:real:return-count:{}", tag),
+                    format!("play() call {} with a buffer of {} returned {}, expected {} ({} of {} delivered)", ci, l, ret, n * ch, pos, total),
+                ));
+            }
+            for i in 0..n * ch {
+                let want = reference[pos * ch + i];
+                if buf[i].to_bits() != want.to_bits() {
+                    return Err((
+                        format!("C20:real:stream-differs:{}", tag),
+                        format!(
+                            "AymPrecise output element {} (sample {} per channel, call {} offset {}) is {:e}, direct rendering gives {:e}; buffer lengths {:?}",
+                            pos * ch + i,
+                            pos + i / ch,
+                            ci,
+                            i,
+                            buf[i],
+                            want,
+                            lens
+                        ),
+                    ));
+                }
+                digest = fnv_mix(digest, buf[i].to_bits());
+            }
+            pos += n;
+        }
+        Ok(digest)
+    }));
+    match res {
+        Ok(r) => r,
+        Err(p) => Err((
+            format!("C20:real:panic:Player::play:{}:{}", tag, panic_shape(&p)),
+            format!("Player::new/play with AymPrecise panicked: {}", panic_shape(&p)),
+        )),
+    }
+}
+
+fn cut_points(f: usize, spf: usize) -> Vec<usize> {
+    let t = f * spf;
+    let mut v: Vec<usize> = vec![0, 1, 2];
+    for k in 1..=f {
+        for d in [-1i64, 0, 1] {
+            let p = (k * spf) as i64 + d;
+            if p >= 0 && p as usize <= t {
+                v.push(p as usize);
+            }
+        }
+    }
+    v.sort();
+    v.dedup();
+    v
+}
+
+fn lens_from_cuts(cuts: &[usize], mask: u64, n: usize, stereo: bool, odd: bool, out: &mut Vec<usize>) {
+    out.clear();
+    let mut prev = 0usize;
+    for (i, c) in cuts.iter().enumerate() {
+        if (mask >> i) & 1 == 1 {
+            out.push(c - prev);
+            prev = *c;
+        }
+    }
+    out.push(n - prev);
+    if stereo {
+        for x in out.iter_mut() {
+            *x = 2 * *x + odd as usize;
+        }
+    }
+}
+
+fn real_logs() -> Vec<Vec<Frame>> {
+    // tone A+B+C, noise on C, envelope on B; frame 1 either leaves R13 alone (FF) or retriggers
+    let f0: Frame = [0xAC, 0x01, 0x58, 0x03, 0x1C, 0x00, 0x07, 0x18, 0x0F, 0x10, 0x0B, 0x20, 0x00, 0x0A];
+    let mut f1: Frame = [0x7D, 0x01, 0x58, 0x03, 0x2C, 0x00, 0x03, 0x18, 0x0C, 0x10, 0x0D, 0x20, 0x00, 0xFF];
+    let f2: Frame = [0x7D, 0x00, 0x00, 0x00, 0x2C, 0x01, 0x1F, 0x08, 0x1F, 0x10, 0x0D, 0x40, 0x00, 0x0E];
+    let a = vec![f0, f1, f2];
+    f1[13] = 0x0A;
+    let b = vec![f0, f1, f2];
+    vec![a, b]
+}
+
+fn real_json(frames: &[Frame], c: &RealCfg, lens: &[usize]) -> Value {
+    json!({"kind":"real","frames":frames.iter().map(|f| f.to_vec()).collect::<Vec<_>>(),"ym":c.ym,"stereo_code":c.stereo_code,
+        "freq":c.freq,"rate":c.rate,"pf":c.pf,"stereo":c.stereo,"lens":lens})
+}
+
+fn real_enumeration(ctx: &Ctx, col: &Collector) {
+    let mut cfgs = vec![
+        RealCfg { ym: false, stereo_code: 1, freq: 1773400, rate: 44100, pf: 50, stereo: false },
+        RealCfg { ym: false, stereo_code: 1, freq: 1773400, rate: 44100, pf: 50, stereo: true },
+    ];
+    if ctx.thorough() {
+        cfgs.push(RealCfg { ym: true, stereo_code: 2, freq: 1750000, rate: 48000, pf: 50, stereo: true });
+        cfgs.push(RealCfg { ym: false, stereo_code: 6, freq: 2000000, rate: 44100, pf: 60, stereo: true });
+        cfgs.push(RealCfg { ym: true, stereo_code: 0, freq: 1773400, rate: 32000, pf: 49, stereo: false });
+    }
+    let logs = real_logs();
+    struct Job {
+        cfg: usize,
+        log: usize,
+        odd: bool,
+        reference: std::sync::Arc<Vec<f64>>,
+        start: u64,
+        end: u64,
+    }
+    let mut jobs = Vec::new();
+    let mut ref_digests = Vec::new();
+    for (ci, c) in cfgs.iter().enumerate() {
+        let spf = c.rate / c.pf as usize;
+        let cuts = cut_points(3, spf);
+        for (li, frames) in logs.iter().enumerate() {
+            let reference = std::sync::Arc::new(render_direct(frames, c));
+            let mut d = 0u64;
+            for x in reference.iter() {
+                d = fnv_mix(d, x.to_bits());
+            }
+            ref_digests.push((ci, li, d));
+            for odd in [false, true] {
+                if odd && !c.stereo {
+                    continue;
+                }
+                let n = 1u64 << cuts.len();
+                let mut s = 0;
+                while s < n {
+                    jobs.push(Job { cfg: ci, log: li, odd, reference: reference.clone(), start: s, end: (s + 32).min(n) });
+                    s += 32;
+                }
+            }
+        }
+    }
+    // vacuity: the R13=FF log and the retrigger log must sound different
+    for ci in 0..cfgs.len() {
+        let a = ref_digests.iter().find(|x| x.0 == ci && x.1 == 0).unwrap().2;
+        let b = ref_digests.iter().find(|x| x.0 == ci && x.1 == 1).unwrap().2;
+        if a == b {
+            ctx.note("vacuity_alarm_real_r13_ff_indistinguishable", json!(true));
+        }
+    }
+    ctx.note("real_cut_points_44100_50", json!(cut_points(3, 882)));
+    let evals = std::sync::atomic::AtomicU64::new(0);
+    par_for(jobs.len(), 1, |ji| {
+        let job = &jobs[ji];
+        let c = &cfgs[job.cfg];
+        let frames = &logs[job.log];
+        let spf = c.rate / c.pf as usize;
+        let cuts = cut_points(3, spf);
+        let n = 3 * spf + 3;
+        let mut lens = Vec::new();
+        for mask in job.start..job.end {
+            lens_from_cuts(&cuts, mask, n, c.stereo, job.odd, &mut lens);
+            match real_case(frames, c, &lens, &job.reference, false) {
+                Ok(d) => ctx.outcome(d ^ ((job.cfg as u64) << 56)),
+                Err(fail) => col.fail((1000 + job.cfg as u64, job.log as u64 * 2 + job.odd as u64, mask), &fail.0, &fail.1, || real_json(frames, c, &lens)),
+            }
+            evals.fetch_add(1, std::sync::atomic::Ordering::Relaxed);
+        }
+    });
+    let e = evals.into_inner();
+    ctx.add_eval(e);
+    ctx.note("real_partitions_rendered", json!(e));
+    ctx.sample(json!({"part":"real","cfg":format!("{:?}", cfgs[1]),"r13_per_frame":[logs[0][0][13],logs[0][1][13],logs[0][2][13]],"cut_points":cut_points(3, 882)}));
+}
+
+// ------------------------------------------------------------------ decode
+
+/// Exhaustive round trip of the LH5 literal encoder through delharc. Returns the number of
+/// strings checked.
+fn validate_writer() -> Result<u64, String> {
+    let mut n = 0u64;
+    let check = |data: &[u8], block: usize, style: Lh5Style| -> Result<(), String> {
+        let enc = lh5_literals(data, block, style);
+        match lh5_decode(&enc, data.len()) {
+            Ok(d) if d == data => Ok(()),
+            Ok(_) => Err(format!("round trip differs for {} bytes, block {}, {:?}", data.len(), block, style)),
+            Err(e) => Err(format!("delharc rejects the stream for {} bytes, block {}, {:?}: {}", data.len(), block, style, e)),
+        }
+    };
+    let alpha = [0x00u8, 0x7F, 0xFF];
+    for style in [Lh5Style::Flat, Lh5Style::Explicit] {
+        for block in [1usize, 3, 65535] {
+            for len in 0..=7usize {
+                for code in 0..3usize.pow(len as u32) {
+                    let mut c = code;
+                    let data: Vec<u8> = (0..len)
+                        .map(|_| {
+                            let v = alpha[c % 3];
+                            c /= 3;
+                            v
+                        })
+                        .collect();
+                    check(&data, block, style)?;
+                    n += 1;
+                }
+            }
+            for b in 0..=255u8 {
+                check(&[b], block, style)?;
+                check(&[b, b ^ 0xFF, b], block, style)?;
+                n += 2;
+            }
+            let all: Vec<u8> = (0..=255u8).collect();
+            check(&all, block, style)?;
+            n += 1;
+        }
+        let long: Vec<u8> = (0..70000usize).map(|i| (i % 251) as u8).collect();
+        check(&long, 65535, style)?;
+        check(&long, 4096, style)?;
+        n += 2;
+    }
+    Ok(n)
+}
+
+fn spec_json(spec: &VtxSpec, block: usize, style: Lh5Style) -> Value {
+    let mut flat = Vec::new();
+    for f in spec.frames.iter() {
+        flat.extend_from_slice(f);
+    }
+    json!({"kind":"decode","ym":spec.ym,"stereo":spec.stereo,"loop_start":spec.loop_start,"frequency":spec.frequency,
+        "player_freq":spec.player_freq,"year":spec.year,"strings":spec.strings.to_vec(),"frames_hex":crate::vcore::hex(&flat),
+        "block":block,"style":if style == Lh5Style::Flat {"flat"} else {"explicit"}})
+}
+
+fn decode_case(spec: &VtxSpec, block: usize, style: Lh5Style, verbose: bool) -> Result<u64, Fail> {
+    let file = write_vtx(spec, block, style);
+    // the writer's own payload must survive delharc before the verdict is believed
+    let payload = register_major(&spec.frames);
+    let enc = lh5_literals(&payload, block, style);
+    match lh5_decode(&enc, payload.len()) {
+        Ok(d) if d == payload => {}
+        _ => {
+            eprintln!("MACHINERY: LH5 writer self-check failed");
+            std::process::exit(2);
+        }
+    }
+    let mut want = Vec::with_capacity(payload.len());
+    for f in spec.frames.iter() {
+        want.extend_from_slice(f);
+    }
+    let res = catch_unwind(AssertUnwindSafe(|| Vtx::load(std::io::Cursor::new(&file[..]))));
+    let v = match res {
+        Err(p) => {
+            return Err((
+                format!("C20:decode:panic:Vtx::load:{}", panic_shape(&p)),
+                format!("Vtx::load panicked on a well-formed file: {}", panic_shape(&p)),
+            ))
+        }
+        Ok(Err(e)) => {
+            return Err(("C20:decode:load-error".to_string(), format!("Vtx::load rejects a well-formed file of {} frames: {}", spec.frames.len(), e)))
+        }
+        Ok(Ok(v)) => v,
+    };
+    if verbose {
+        println!("  file bytes: {}", file.len());
+        println!("  frame_data wanted: {}", crate::vcore::hex(&want[..want.len().min(64)]));
+        println!("  frame_data got   : {}", crate::vcore::hex(&v.frame_data[..v.frame_data.len().min(64)]));
+    }
+    if v.frame_data != want {
+        let cls = if v.frame_data.len() != want.len() {
+            "length"
+        } else {
+            let mut a = v.frame_data.clone();
+            let mut b = want.clone();
+            a.sort();
+            b.sort();
+            if a == b {
+                "reordered"
+            } else {
+                "bytes-changed"
+            }
+        };
+        let first = v.frame_data.iter().zip(want.iter()).position(|(a, b)| a != b);
+        return Err((
+            format!("C20:decode:frame-data:{}", cls),
+            format!(
+                "frame_data of a {}-frame file is not the frame-major transposition: {} bytes (expected {}), first difference at byte {:?}",
+                spec.frames.len(),
+                v.frame_data.len(),
+                want.len(),
+                first
+            ),
+        ));
+    }
+    let hdr_ok = [
+        ("chip", matches!(v.chip, vtx::SoundChip::YM) == spec.ym),
+        ("stereo", stereo_code(&v.stereo) == spec.stereo),
+        ("frequency", v.frequency == spec.frequency),
+        ("player-frequency", v.player_frequency == spec.player_freq),
+        ("loop-start", v.loop_start_frame == spec.loop_start),
+        ("year", v.year == spec.year),
+        ("title", v.title == spec.strings[0]),
+        ("author", v.author == spec.strings[1]),
+        ("from", v.from == spec.strings[2]),
+        ("tracker", v.tracker == spec.strings[3]),
+        ("comment", v.comment == spec.strings[4]),
+    ];
+    for (name, ok) in hdr_ok {
+        if !ok {
+            return Err((format!("C20:decode:header:{}", name), format!("header field {} does not round-trip: loaded {:?}", name, v)));
+        }
+    }
+    let mut h = fnv(&v.frame_data);
+    h = fnv_mix(h, spec.stereo as u64 | (spec.ym as u64) << 8);
+    Ok(h)
+}
+
+fn strings_sets() -> Vec<[String; 5]> {
+    let e = String::new;
+    let mut v = vec![
+        [e(), e(), e(), e(), e()],
+        ["Title".to_string(), "Author".to_string(), "From".to_string(), "Tracker".to_string(), "A comment".to_string()],
+        [e(), e(), e(), e(), "x".repeat(300)],
+    ];
+    // fifth terminator exactly at the end of / just past the loader's 256-byte scan chunk
+    for total in [255usize, 256, 257] {
+        v.push(["t".repeat(total - 5), e(), e(), e(), e()]);
+    }
+    v
+}
+
+fn pattern_frames(f: usize, pat: usize) -> Vec<Frame> {
+    (0..f)
+        .map(|k| {
+            let mut fr = [0u8; 14];
+            for r in 0..14 {
+                let pos = k * 14 + r;
+                fr[r] = match pat {
+                    0 => (pos % 251 + 1) as u8,
+                    1 => 0xFF - (pos % 251) as u8,
+                    2 => {
+                        if r == 13 {
+                            0xFF
+                        } else {
+                            (pos * 7 % 256) as u8
+                        }
+                    }
+                    3 => 0x00,
+                    4 => 0x7F,
+                    _ => 0xFF,
+                };
+            }
+            fr
+        })
+        .collect()
+}
+
+fn decode_enumeration(ctx: &Ctx, col: &Collector) {
+    struct Job {
+        spec: VtxSpec,
+        block: usize,
+        style: Lh5Style,
+    }
+    let mut jobs: Vec<Job> = Vec::new();
+    let strs = strings_sets();
+    let base = |frames: Vec<Frame>, ym: bool, stereo: u8, si: usize| VtxSpec {
+        ym,
+        stereo,
+        loop_start: (frames.len() as u16).wrapping_mul(3) ^ 0x0102,
+        frequency: if ym { 2000000 } else { 1773400 },
+        player_freq: if ym { 60 } else { 50 },
+        year: 1989 + stereo as u16,
+        strings: strs[si].clone(),
+        frames,
+    };
+    let n_pat = if ctx.thorough() { 6 } else { 3 };
+    for f in 0..=4usize {
+        for pat in 0..n_pat {
+            for stereo in 0..7u8 {
+                for ym in [false, true] {
+                    for style in [Lh5Style::Flat, Lh5Style::Explicit] {
+                        for block in [65535usize, 5] {
+                            jobs.push(Job { spec: base(pattern_frames(f, pat), ym, stereo, (f + pat) % strs.len()), block, style });
+                        }
+                    }
+                }
+            }
+        }
+        // every strings set once per frame count
+        for si in 0..strs.len() {
+            jobs.push(Job { spec: base(pattern_frames(f, 0), false, 1, si), block: 65535, style: Lh5Style::Flat });
+        }
+    }
+    if ctx.thorough() {
+        // one-hot: every (frame, register) position x every value of {00 7F FF} against a 55 background
+        for f in 1..=4usize {
+            for pos in 0..f * 14 {
+                for val in [0x00u8, 0x7F, 0xFF] {
+                    let mut frames = vec![[0x55u8; 14]; f];
+                    frames[pos / 14][pos % 14] = val;
+                    jobs.push(Job { spec: base(frames, false, 1, 0), block: 65535, style: Lh5Style::Flat });
+                }
+            }
+        }
+    }
+    // larger frame counts (position-coded), crossing the 64 KiB LH5 block limit
+    let mut big = vec![5usize, 16, 17, 255, 256, 257, 4681, 4682];
+    if ctx.thorough() {
+        big.extend([1000, 9999, 20000]);
+    }
+    for f in big {
+        for (ym, stereo) in [(false, 1u8), (true, 6u8)] {
+            jobs.push(Job { spec: base(pattern_frames(f, 0), ym, stereo, 1), block: 65535, style: Lh5Style::Flat });
+            jobs.push(Job { spec: base(pattern_frames(f, 2), ym, stereo, 2), block: 4096, style: Lh5Style::Explicit });
+        }
+    }
+    par_for(jobs.len(), 4, |i| {
+        let j = &jobs[i];
+        match decode_case(&j.spec, j.block, j.style, false) {
+            Ok(h) => ctx.outcome(h),
+            Err(fail) => col.fail((2000, j.spec.frames.len() as u64, i as u64), &fail.0, &fail.1, || spec_json(&j.spec, j.block, j.style)),
+        }
+        ctx.add_eval(1);
+    });
+    ctx.note("decode_files_written_and_loaded", json!(jobs.len()));
+    ctx.sample(json!({"part":"decode","frames":2,"register_major_payload_hex":crate::vcore::hex(&register_major(&pattern_frames(2,0))),
+        "expected_frame_data_hex":crate::vcore::hex(&pattern_frames(2,0).concat())}));
+}
+
+/// Shipped files: header parsed and LH5 payload decoded here with delharc directly; the
+/// transposition is done by `transpose` below.
+fn sample_file_case(path: &str, verbose: bool) -> Result<u64, Fail> {
+    let name = path.rsplit('/').next().unwrap_or(path).to_string();
+    let data = rig::read_file(path);
+    let size = u32::from_le_bytes([data[12], data[13], data[14], data[15]]) as usize;
+    let mut p = 16;
+    let mut nul = 0;
+    while nul < 5 {
+        if data[p] == 0 {
+            nul += 1;
+        }
+        p += 1;
+    }
+    let payload = match lh5_decode(&data[p..], size) {
+        Ok(d) => d,
+        Err(e) => {
+            eprintln!("MACHINERY: cannot decode {} with delharc: {}", path, e);
+            std::process::exit(2);
+        }
+    };
+    let frames = size / 14;
+    let mut want = vec![0u8; size];
+    for k in 0..frames {
+        for r in 0..14 {
+            want[k * 14 + r] = payload[r * frames + k];
+        }
+    }
+    let res = catch_unwind(AssertUnwindSafe(|| Vtx::load(std::io::Cursor::new(&data[..]))));
+    let v = match res {
+        Ok(Ok(v)) => v,
+        Ok(Err(e)) => return Err((format!("C20:decode:sample-file:load-error:{}", name), format!("Vtx::load fails on {}: {}", path, e))),
+        Err(p) => return Err((format!("C20:decode:sample-file:panic:{}", panic_shape(&p)), format!("Vtx::load panicked on {}", path))),
+    };
+    if verbose {
+        println!("  {}: {} frames, player frequency {}", name, frames, v.player_frequency);
+    }
+    if v.frame_data != want {
+        let first = v.frame_data.iter().zip(want.iter()).position(|(a, b)| a != b);
+        return Err((
+            format!("C20:decode:sample-file:frame-data:{}", name),
+            format!("{}: frame_data is not the transposition of the delharc-decoded payload (first difference at {:?})", name, first),
+        ));
+    }
+    if v.player_frequency != data[9] || v.frequency != u32::from_le_bytes([data[5], data[6], data[7], data[8]]) {
+        return Err((format!("C20:decode:sample-file:header:{}", name), format!("{}: header numbers differ", name)));
+    }
+    Ok(fnv(&v.frame_data))
+}
+
+const SAMPLE_FILES: [&str; 4] = [
+    "/repo/vtx/src/test/csoon.vtx",
+    "/repo/vtx/src/test/secret.vtx",
+    "/repo/vtx/src/test/sil00.vtx",
+    "/repo/vtx/src/test/spf21_00.vtx",
+];
+
+// ------------------------------------------------------------------ entry
+
+pub fn run(tier: Tier, seed: u64, replay: Option<String>) -> i32 {
+    let ctx = Ctx::new("C20", tier, seed, "model_checking");
+    if let Some(path) = replay {
+        return replay_case(&path);
+    }
+    match validate_writer() {
+        Ok(n) => ctx.note("lh5_writer_round_trips_through_delharc", json!(n)),
+        Err(e) => {
+            eprintln!("MACHINERY: LH5 writer validation failed: {}", e);
+            return 2;
+        }
+    }
+    let col = Collector::new();
+    sched_enumeration(&ctx, &col);
+    real_enumeration(&ctx, &col);
+    decode_enumeration(&ctx, &col);
+    for (i, p) in SAMPLE_FILES.iter().enumerate() {
+        match sample_file_case(p, false) {
+            Ok(h) => ctx.outcome(h),
+            Err(f) => col.fail((3000, i as u64, 0), &f.0, &f.1, || json!({"kind":"sample-file","path":p})),
+        }
+        ctx.add_eval(1);
+    }
+    col.flush(&ctx);
+    ctx.finish(
+        "E-PROD. (1) recording AymBackend: frames 0..=3 x spf {1,2,3,5} x 2 (rate, player frequency) pairs per spf x register logs (R13 over {00,01,0F,FF}^F x 2 patterns; 2 logs where partitions x logs exceeds the budget) x mono/stereo x ALL compositions of the requested output (F*spf+3 mono elements; 2*F*spf+3 stereo elements incl. length 1 and odd lengths; F=3,spf=5 stereo: all capacity compositions x 4 parity patterns) followed by three past-the-end calls; oracle = reference model of the statement (return counts, concatenated stream, register-write schedule). (2) real AymPrecise: every subset of the cut-point set around the frame boundaries, mono/stereo/stereo-odd, 2 register logs (R13=FF vs retrigger), bit-exact against a direct rendering. (3) Vtx::load on files from the harness writer (frame counts 0..=4 and up to two LH5 blocks, all 7 stereo codes, both chips, 2 LH5 header styles) and on the 4 shipped files. distinct = outcome digests (produced/short/zero-call profile, stream digests, decoded payload digests)",
+        true,
+        &[
+            "Vtx values for playback are constructed directly (all fields public); Player is generic over the backend",
+            "LH5 encoder of the harness is literal-only; it is validated by exhaustive round trip through delharc (the decoder the vtx crate uses) before any decode verdict",
+            "player frequency 0 and sample rate < player frequency are not judged (formula undefined)",
+            "order of the fourteen writes inside one sample index is not judged",
+        ],
+    )
+}
+
+fn frames_from(v: &Value) -> Vec<Frame> {
+    v.as_array()
+        .map(|a| {
+            a.iter()
+                .map(|f| {
+                    let mut fr = [0u8; 14];
+                    for (i, x) in f.as_array().unwrap().iter().enumerate().take(14) {
+                        fr[i] = x.as_u64().unwrap() as u8;
+                    }
+                    fr
+                })
+                .collect()
+        })
+        .unwrap_or_default()
+}
+
+fn replay_case(path: &str) -> i32 {
+    let v: Value = serde_json::from_slice(&rig::read_file(path)).expect("replay json");
+    let case = &v["case"];
+    let kind = case["kind"].as_str().unwrap_or("");
+    let lens: Vec<usize> = case["lens"].as_array().map(|a| a.iter().map(|x| x.as_u64().unwrap() as usize).collect()).unwrap_or_default();
+    let res: Result<(), Fail> = match kind {
+        "sched" => {
+            let frames = frames_from(&case["frames"]);
+            let rate = case["rate"].as_u64().unwrap() as usize;
+            let pf = case["pf"].as_u64().unwrap() as u8;
+            let stereo = case["stereo"].as_bool().unwrap();
+            println!("replay: recording backend, {} frames, rate {} / player frequency {} = {} samples per frame, stereo {}, buffer lengths {:?}", frames.len(), rate, pf, rate / pf as usize, stereo, lens);
+            let m = model(&frames, rate / pf as usize);
+            sched_case(&frames, rate, pf, stereo, &lens, &m, &mut Vec::new(), true).map(|_| ())
+        }
+        "real" => {
+            let frames = frames_from(&case["frames"]);
+            let c = RealCfg {
+                ym: case["ym"].as_bool().unwrap(),
+                stereo_code: case["stereo_code"].as_u64().unwrap() as u8,
+                freq: case["freq"].as_u64().unwrap() as u32,
+                rate: case["rate"].as_u64().unwrap() as usize,
+                pf: case["pf"].as_u64().unwrap() as u8,
+                stereo: case["stereo"].as_bool().unwrap(),
+            };
+            println!("replay: AymPrecise, {:?}, buffer lengths {:?}", c, lens);
+            let reference = render_direct(&frames, &c);
+            real_case(&frames, &c, &lens, &reference, true).map(|_| ())
+        }
+        "decode" => {
+            let flat = crate::vcore::unhex(case["frames_hex"].as_str().unwrap_or(""));
+            let frames: Vec<Frame> = flat
+                .chunks(14)
+                .map(|c| {
+                    let mut f = [0u8; 14];
+                    f.copy_from_slice(c);
+                    f
+                })
+                .collect();
+            let s: Vec<String> = case["strings"].as_array().unwrap().iter().map(|x| x.as_str().unwrap().to_string()).collect();
+            let spec = VtxSpec {
+                ym: case["ym"].as_bool().unwrap(),
+                stereo: case["stereo"].as_u64().unwrap() as u8,
+                loop_start: case["loop_start"].as_u64().unwrap() as u16,
+                frequency: case["frequency"].as_u64().unwrap() as u32,
+                player_freq: case["player_freq"].as_u64().unwrap() as u8,
+                year: case["year"].as_u64().unwrap() as u16,
+                strings: [s[0].clone(), s[1].clone(), s[2].clone(), s[3].clone(), s[4].clone()],
+                frames,
+            };
+            let style = if case["style"] == "flat" { Lh5Style::Flat } else { Lh5Style::Explicit };
+            println!("replay: Vtx::load of a written file, {} frames, stereo code {}, ym {}", spec.frames.len(), spec.stereo, spec.ym);
+            decode_case(&spec, case["block"].as_u64().unwrap() as usize, style, true).map(|_| ())
+        }
+        "sample-file" => sample_file_case(case["path"].as_str().unwrap(), true).map(|_| ()),
+        _ => {
+            eprintln!("MACHINERY: unknown replay kind {:?}", kind);
+            return 2;
+        }
+    };
+    match res {
+        Ok(()) => {
+            println!("replay: case passes now");
+            0
+        }
+        Err((key, what)) => {
+            println!("replay: still failing: {} — {}", key, what);
+            1
+        }
+    }
 }
